@@ -113,6 +113,9 @@ def Mild (P D : Path → Prop) : Call → Prop
   | .copyFile _ _ => False
   | .reflink _ _ => False
   | .removeTree _ => False
+  | .isLink _ => True
+  | .mkTempLink _ _ => False
+  | .renameLink _ _ => False
 
 theorem quiet_mkdirLevels {P D : Path → Prop} {fs fs' : FS} {d : Path} {n : Nat}
     (hm : ∀ q, q <+: d → D q) (h : FS.mkdirLevels fs (FS.prefixes d) n = .ok fs') : Quiet P D fs fs' := by
@@ -193,6 +196,9 @@ theorem mild_step {P D : Path → Prop} {env : Env} {fs fs' : FS} {c : Call} {r 
   | copyFile s d => exact hm.elim
   | reflink s d => exact hm.elim
   | removeTree p => exact hm.elim
+  | isLink p => exact fun q => Or.inr (Or.inl (step_frame env fs fs' _ r hs q (fun e => e)))
+  | mkTempLink dir t => exact hm.elim
+  | renameLink s d => exact hm.elim
 
 /-- **A mild call torn by a kill changes the filesystem quietly**: a torn `create_dir_all` leaves
 a prefix of the directories, a torn data write a prefix of the data in a `P`-file. -/
